@@ -155,7 +155,8 @@ def cli_runs():
     d = os.path.join(BUILD, 'scratch', 'c15-%d' % os.getpid())
     shutil.rmtree(d, ignore_errors=True)
     findings = []
-    for sub, cfg in (('a', 'tab_spaces = 2\n'), ('b', None), ('c', 'tab_spaces = 8\n')):
+    subs = (('a', 'tab_spaces = 2\n'), ('b', None), ('c', 'tab_spaces = 8\n'), ('a/in', 'tab_spaces = 6\n'), ('a/in/deep', None))
+    for sub, cfg in subs:
         os.makedirs(os.path.join(d, sub))
         if cfg:
             open(os.path.join(d, sub, 'rustfmt.toml'), 'w').write(cfg)
@@ -169,16 +170,22 @@ def cli_runs():
         return subprocess.run([rf] + args, capture_output=True, text=True, env=env, timeout=60, cwd=d)
     import itertools
     single = {}
-    for sub in 'abc':
+    names = [s_ for s_, _ in subs]
+    for sub in names:
         r = run(['--emit', 'stdout', '%s/x.rs' % sub])
-        single[sub] = r.stdout.split('\n', 2)[-1] if r.stdout.startswith(os.sep) or ':' in r.stdout.split('\n')[0] else r.stdout
         single[sub] = [ln for ln in r.stdout.split('\n') if ln.startswith(' ') and 'let' in ln]
-    for order in itertools.permutations('abc'):
+    # independent expectation: the nearest rustfmt.toml at or above the file decides
+    want_ts = {'a': 2, 'b': 4, 'c': 8, 'a/in': 6, 'a/in/deep': 6}
+    for sub in names:
+        if single[sub] != [' ' * want_ts[sub] + 'let x = 1;']:
+            findings.append('%s/x.rs alone: %r, its nearest config says tab_spaces=%d' % (sub, single[sub], want_ts[sub]))
+    orders = list(itertools.permutations(['a', 'b', 'c'])) + list(itertools.permutations(['a', 'a/in', 'a/in/deep'])) + [('c', 'a/in', 'a'), ('a/in', 'b', 'a/in/deep', 'a')]
+    for order in orders:
         r = run(['--emit', 'stdout'] + ['%s/x.rs' % s for s in order])
         lets = [ln for ln in r.stdout.split('\n') if ln.startswith(' ') and 'let' in ln]
-        want = [single[s][0] for s in order]
+        want = [single[s][0] if single[s] else None for s in order]
         if lets != want:
-            findings.append('order %s: indentation %r, single-file runs give %r' % (''.join(order), lets, want))
+            findings.append('order %s: indentation %r, single-file runs give %r' % (' '.join(order), lets, want))
     import json as _json
     open(os.path.join(d, 'm1.rs'), 'w').write('fn   a( ) { }\n')
     open(os.path.join(d, 'm2.rs'), 'w').write('fn   b( ) { }\n')
